@@ -146,7 +146,7 @@ def job(cfg):
                     if bad is not None:
                         pt = int(np.nonzero(good)[0][bad])
                         res.violation("%s/%s/force_bias/chol:%s/par:%s" % (kind, mode, gridmc.ham_class(cl), gridmc.param_class(p.label)),
-                                      dict(cfg, mode=mode, entry=entry, label=p.label, chol=cl, point=pt),
+                                      dict(cfg, mode=mode, entry=entry, n_batch=int(tr.n_batch), label=p.label, chol=cl, point=pt),
                                       dict(impl=fb[bad], ref=fb_ref[bad], err=float(err[bad]), n_bad=int((~(err <= TOL)).sum()), n_points=ng))
                 if cl == "dense" and full:
                     res.nontrivial_values((kind, n, na, nb, cfg["variant"], mode, p.label), fb_ref[:, 0], 9)
@@ -212,6 +212,11 @@ def replay(case):
     fb_ref = np.array([(np.conj(p.ket) @ Lh @ phi) / (np.conj(p.ket) @ phi) for Lh in sec.chol_ops(chol)])
     hd = gridmc.build_ham_data(n, 0.0, np.zeros((2, n, n)), chol, trial, p.wave_data)
     sl = slice(i, i + 1)
-    fb = eval_fb(trial, p.wave_data, hd, mode, "single", Wa[sl], None if Wb is None else Wb[sl])[0]
+    if cfg.get("entry") in ("batched", "eager"):  # batch-order defects only show on the whole batch
+        tr = gridmc.with_batch(trial, cfg.get("n_batch", 1))
+        hd = gridmc.build_ham_data(n, 0.0, np.zeros((2, n, n)), chol, tr, p.wave_data)
+        fb = eval_fb(tr, p.wave_data, hd, mode, cfg["entry"], Wa, Wb)[i]
+    else:
+        fb = eval_fb(trial, p.wave_data, hd, mode, "single", Wa[sl], None if Wb is None else Wb[sl])[0]
     err = np.abs(fb - fb_ref).max() / max(1.0, np.abs(fb_ref).max())
     return (not err <= TOL, dict(impl=fb, ref=fb_ref, err=float(err)))
